@@ -20,6 +20,8 @@ def run(ctx, rep):
         rt.rule_accessor_operands(rep, crate, cfg, False)
         rt.rule_writers(rep, crate, cfg, ['token_start', 'token_end', 'source'], 'M-C05c')
         rt.rule_bump(rep, crate, cfg)
+        rt.rule_is_boundary(rep, crate, cfg)
+        rt.rule_rounding(rep, crate, cfg)       # error ends are char boundaries: the unchecked str slicing of slice()/remainder() relies on it
     crate = ctx.mir('logos-forbid')['logos']
     rt.rule_unsafe_inventory(rep, crate, 'logos-forbid', expect_empty=True)
     rt.rule_read_forbid(rep, crate, 'logos-forbid')
